@@ -529,9 +529,92 @@ IvsPos ==
   \o [p \in 1 .. 3 |-> [axes |-> 1, regions |-> IvsRegs3,
                         data |-> [i \in 1 .. 3 |-> IF i = p THEN IvsD(0, 0, FALSE, 0) ELSE IvsD(3, i, FALSE, 1)]]]
 
+
+\* -- the parts of an item variation store on their own (the store's own writer is a known finding and would
+\* hide them): ItemVariationData with the LONG_WORDS flag (bit 15 of wordDeltaCount) set and clear for every
+\* word count 0 .. n, no rows / one row / several rows, the largest region index; VariationRegionList with
+\* 0 .. 3 regions of 0 .. 2 axes and the extreme F2Dot14 values
+IvdVals ==
+  Cat([w \in 1 .. 4 |-> Cat([it \in 1 .. 3 |->
+         <<IvsD(3, w - 1, FALSE, <<0, 1, 3>>[it]), IvsD(3, w - 1, TRUE, <<0, 1, 3>>[it])>>])])
+  \o <<IvsD(1, 0, FALSE, 2), IvsD(1, 0, TRUE, 2), IvsD(1, 1, FALSE, 2), IvsD(1, 1, TRUE, 2),
+       [IvsD(2, 1, TRUE, 1) EXCEPT !.ris = <<65535, 0>>], [IvsD(2, 2, FALSE, 1) EXCEPT !.ris = <<65535, 32768>>],
+       [items |-> 0, wdc |-> 0, ris |-> <<>>, deltas |-> <<>>], [items |-> 0, wdc |-> 32768, ris |-> <<>>, deltas |-> <<>>],
+       IvsD(16, 16, TRUE, 2), IvsD(16, 0, TRUE, 2), IvsD(16, 16, FALSE, 255)>>
+IvrVals ==
+  <<[axes |-> 0, regions |-> <<>>], [axes |-> 2, regions |-> <<>>], [axes |-> 0, regions |-> <<<<>>, <<>>>>],
+    [axes |-> 1, regions |-> IvsRegs3],
+    [axes |-> 2, regions |-> <<<<<<-16384, -16384, 0>>, <<0, 0, 0>>>>, <<<<0, 8192, 16384>>, <<-1, 1, 32767>>>>,
+                               <<<<-32768, 0, 32767>>, <<16384, 16384, 16384>>>>>>]>>
+
+\* -- whole CFF tables: the two-pass writer (Top DICT INDEX reserved from a size computed in advance, Private
+\* DICT written after its size was counted, Font DICT INDEX assembled after the Private DICTs) at the sizes
+\* where the size classes of the encodings change: Top / Private / Font DICT data of 250 .. 260 bytes and
+\* around 65535, every INDEX with 254 / 255 / 256 / 65534 / 65535 / 65536 bytes of object data, the String
+\* INDEX with 0 / 1 / 2 / 3 strings and SIDs on both sides of 391.  All neighbouring structures are non-empty
+\* and different from one another, so that a structure read at the wrong place is seen.
+PadBig(op, i) == DE(op, [j \in 1 .. 48 |-> I(100000 + 48 * i + j)])                   \* 241 bytes
+PadSmall(op, k) == LET a == (k - 1) \div 5  b == (k - 1) % 5 IN                       \* k bytes, 2 <= k <= 200
+                   DE(op, [j \in 1 .. (a + b) |-> IF j <= a THEN I(70000 + j) ELSE I(j)])
+RECURSIVE Pad(_, _)
+Pad(op, k) == IF k = 0 THEN <<>> ELSE IF k <= 200 THEN <<PadSmall(op, k)>>
+              ELSE IF k <= 242 THEN <<PadSmall(op, k - 100), PadSmall(op, 100)>>
+              ELSE <<PadBig(op, k)>> \o Pad(op, k - 241)
+CffBase == [names |-> <<Str(6, 64)>>, top |-> <<DE(2, <<I(391)>>)>>, strs |-> <<Str(5, 96), Str(3, 32)>>,
+            gs |-> <<<<1, 11>>, <<2, 3, 11>>, <<11>>>>, cs |-> <<<<14>>, <<139, 14>>, <<140, 141, 14>>>>, sids |-> <<>>,
+            priv |-> <<DE(10, <<I(80)>>)>>, hasLs |-> TRUE, ls |-> <<<<4, 11>>, <<11>>>>, fds |-> <<>>, fdsel |-> <<>>]
+CffCidBase == [CffBase EXCEPT !.top = <<DE(3102, <<I(391), I(392), I(0)>>), DE(2, <<I(393)>>)>>,
+                              !.strs = <<Str(5, 64), Str(8, 72), Str(4, 48)>>, !.sids = <<1, 2>>,
+                              !.priv = <<>>, !.hasLs = FALSE, !.ls = <<>>,
+                              !.fds = <<[fd |-> <<DE(3110, <<I(393)>>)>>, priv |-> <<DE(10, <<I(80)>>)>>, hasLs |-> TRUE, ls |-> <<<<5, 11>>>>],
+                                        [fd |-> <<DE(3110, <<I(392)>>)>>, priv |-> <<DE(11, <<I(90)>>)>>, hasLs |-> FALSE, ls |-> <<>>]>>,
+                              !.fdsel = <<0, 1, 0>>]
+\* the Top DICT of CffBase without padding: FullName (3) + CharStrings (6) + Private (11); the Private DICT:
+\* StdHW (2) + Subrs (6); a Font DICT of CffCidBase: FontName (4) + Private (11); its Top DICT: ROS (7) +
+\* FullName (3) + charset (6) + CharStrings (6) + FDArray (7) + FDSelect (7) = 36 with ROS (7)
+CffTopOf(L)  == [CffBase EXCEPT !.top = @ \o Pad(14, L - 20)]
+CffPrivOf(L, subrs) == [CffBase EXCEPT !.priv = @ \o Pad(6, L - (IF subrs THEN 8 ELSE 2)), !.hasLs = subrs,
+                                       !.ls = IF subrs THEN @ ELSE <<>>]
+CffFdOf(L, which) == [CffCidBase EXCEPT !.fds[which].fd = @ \o Pad(14, L - 15)]
+CffCidTopOf(L) == [CffCidBase EXCEPT !.top = @ \o Pad(14, L - 36)]
+DictLens == <<250, 251, 252, 253, 254, 255, 256, 257, 258, 259, 260>>
+BigLens  == IF Thorough THEN <<65530, 65531, 65532, 65533, 65534, 65535, 65536, 65537, 65538, 65539, 65540>>
+            ELSE <<65533, 65534, 65535, 65536>>
+IdxDatas == <<254, 255, 256, 65534, 65535, 65536>>
+Two(n, c) == <<Obj(n - 100, c), Obj(100, c + 1)>>           \* two objects with n bytes of data together
+CffStrN(k) ==     \* k strings; the Top DICT names SIDs on both sides of the first custom one
+  [CffBase EXCEPT !.strs = [i \in 1 .. k |-> Str(3 + i, 40 * i)],
+                  !.top = <<DE(0, <<I(390)>>), DE(2, <<I(IF k >= 1 THEN 391 ELSE 389)>>), DE(3, <<I(390 + (IF k = 0 THEN 0 ELSE k))>>),
+                            DE(4, <<I(1)>>)>>]
+CfftVals ==
+  <<CffBase, CffCidBase, [CffBase EXCEPT !.sids = <<391, 5>>], [CffBase EXCEPT !.hasLs = FALSE, !.ls = <<>>],
+    [CffBase EXCEPT !.ls = <<>>], [CffBase EXCEPT !.gs = <<>>], [CffBase EXCEPT !.strs = <<>>, !.top = <<DE(2, <<I(390)>>)>>]>>
+  \o [i \in 1 .. Len(DictLens) |-> CffTopOf(DictLens[i])] \o [i \in 1 .. Len(BigLens) |-> CffTopOf(BigLens[i])]
+  \o [i \in 1 .. Len(DictLens) |-> CffPrivOf(DictLens[i], TRUE)] \o [i \in 1 .. Len(DictLens) |-> CffPrivOf(DictLens[i], FALSE)]
+  \o [i \in 1 .. Len(BigLens) |-> CffPrivOf(BigLens[i], (i % 2) = 0)]
+  \o [i \in 1 .. Len(DictLens) |-> CffFdOf(DictLens[i], 1)] \o [i \in 1 .. Len(DictLens) |-> CffFdOf(DictLens[i] - 15, 2)]
+  \o [i \in 1 .. Len(BigLens) |-> CffFdOf(BigLens[i] - 15, 1 + (i % 2))]
+  \o [i \in 1 .. Len(DictLens) |-> CffCidTopOf(DictLens[i])]
+  \o [k \in 1 .. 4 |-> CffStrN(k - 1)]
+  \o Cat([i \in 1 .. Len(IdxDatas) |-> LET n == IdxDatas[i] IN
+        <<[CffBase EXCEPT !.gs = Two(n, 7)], [CffBase EXCEPT !.ls = Two(n, 9)], [CffBase EXCEPT !.cs = Two(n, 11)],
+          [CffBase EXCEPT !.strs = Two(n, 13)], [CffCidBase EXCEPT !.fds[1].ls = Two(n, 15)]>>])
+  \o <<[CffBase EXCEPT !.names = <<Str(254, 1)>>], [CffBase EXCEPT !.names = <<Str(255, 1)>>]>>
+\* what the driver classifies (sizes, computed here, not in the harness)
+CfftSizes(v) ==
+  [top |-> TopDictLen(v), cid |-> v.fds # <<>>,
+   priv |-> IF v.fds = <<>> THEN <<Len(PrivDictBytes(v.priv, v.hasLs))>> ELSE [i \in 1 .. Len(v.fds) |-> Len(PrivDictBytes(v.fds[i].priv, v.fds[i].hasLs))],
+   subrs |-> IF v.fds = <<>> THEN <<v.hasLs>> ELSE [i \in 1 .. Len(v.fds) |-> v.fds[i].hasLs],
+   fd |-> [i \in 1 .. Len(v.fds) |-> Len(EncDict(FdEntries(v.fds[i], 0, 0)))],
+   nstrs |-> Len(v.strs),
+   sids |-> MapS(SelectSeq(v.top, LAMBDA e : e.op \in SidOps), LAMBDA e : e.args[1].v),
+   data |-> [names |-> IndexData(v.names), strs |-> IndexData(v.strs), gs |-> IndexData(v.gs), cs |-> IndexData(v.cs),
+             ls |-> IF v.fds = <<>> THEN IndexData(v.ls) ELSE IndexData(v.fds[1].ls)],
+   charset |-> IF v.sids = <<>> THEN "predefined" ELSE "format0"]
+
 ---------------------------------------------------------------------------
 Kinds == <<"head", "hhea", "maxp", "hmtx", "cvt", "loca", "os2", "post", "name", "cmapsub", "cmap", "glyph", "glyphp",
-           "cffint", "dict", "index", "indexo", "charset", "encoding", "fdselect", "ivs">>
+           "cffint", "dict", "index", "indexo", "charset", "encoding", "fdselect", "ivs", "ivd", "ivr", "cfft">>
 \* the positional families are appended: the indexes of the older values (and the case ids) do not move
 Vals(k) ==
   CASE k = "head" -> HeadVals [] k = "hhea" -> HheaVals [] k = "maxp" -> MaxpVals [] k = "hmtx" -> HmtxVals \o HmtxPos
@@ -542,7 +625,7 @@ Vals(k) ==
     [] k = "cffint" -> CffIntVals [] k = "dict" -> DictVals \o DictPos [] k = "index" -> IndexVals \o IndexPos
     [] k = "indexo" -> IndexOwnedVals \o IndexOwnedPos [] k = "charset" -> CharsetVals \o CharsetPos
     [] k = "encoding" -> EncodingVals \o EncodingPos [] k = "fdselect" -> FdSelectVals \o FdSelectPos
-    [] k = "ivs" -> IvsVals \o IvsPos
+    [] k = "ivs" -> IvsVals \o IvsPos [] k = "ivd" -> IvdVals [] k = "ivr" -> IvrVals [] k = "cfft" -> CfftVals
 NVals == [i \in 1 .. Len(Kinds) |-> Len(Vals(Kinds[i]))]
 
 Init == \E i \in 1 .. Len(Kinds) : kind = Kinds[i] /\ idx \in 1 .. NVals[i]
@@ -598,6 +681,15 @@ Case ==
   ELSE IF kind = "fdselect" THEN
     [k |-> kind, id |-> idx, v |-> v, n |-> IF v.fmt = 0 THEN Len(v.fds) ELSE v.sentinel,
      exp |-> IF FdSelectRefuse(v) THEN ErrExp ELSE OkExp(EncFdSelect(v), v)]
+  ELSE IF kind = "ivd" THEN      \* one layout: the bytes are parsed, written (must be the same bytes) and parsed again
+    [k |-> kind, id |-> idx, v |-> v, src |-> EncIvsData(v),
+     exp |-> [res |-> "Ok", bytes |-> EncIvsData(v), rows |-> IvdRows(v, v.items + 3), probes |-> v.items + 3]]
+  ELSE IF kind = "ivr" THEN
+    [k |-> kind, id |-> idx, v |-> v, src |-> EncIvsRegions(v),
+     exp |-> [res |-> "Ok", bytes |-> EncIvsRegions(v), nreg |-> Len(v.regions)]]
+  ELSE IF kind = "cfft" THEN     \* the value stays here: the bytes, the facts a reader reports and the size classes go out
+    [k |-> kind, id |-> idx, v |-> CfftSizes(v), src |-> EncCff(v),
+     exp |-> [res |-> "Ok", facts |-> CffFacts(v)]]
   ELSE \* ivs
     [k |-> kind, id |-> idx, v |-> v, src |-> EncIVS(v), exp |-> OkExp(EncIVS(v), v)]
 
@@ -653,6 +745,17 @@ OtherOK ==
                                DecFdSelect(EncFdSelect(V), IF V.fmt = 0 THEN Len(V.fds) ELSE V.sentinel) = V)
     [] kind = "ivs" -> IvsInFormat(V) /\ ~IvsRefuse(V) /\ DecIVS(EncIVS(V)) = [ok |-> TRUE, v |-> V]
     [] kind = "indexo" -> TRUE
+    [] kind = "ivd" -> LET d == DecIvsData(EncIvsData(V)) IN
+                       /\ IsU16(V.items) /\ IsU16(V.wdc) /\ Len(V.deltas) = V.items * IvsRowLen(V)
+                       /\ d.ok /\ d.v = V /\ d.size = Len(EncIvsData(V))
+                       \* the flag doubles the row, the count does not carry it
+                       /\ (V.wdc >= 32768 => IvsRowLen(V) = 2 * IvsRowLen([V EXCEPT !.wdc = @ - 32768]))
+    [] kind = "ivr" -> DecIvsRegions(EncIvsRegions(V)) = V /\ Len(EncIvsRegions(V)) = 4 + 6 * V.axes * Len(V.regions)
+    [] kind = "cfft" -> LET bs == EncCff(V)  d == DecCff(bs) IN
+                        /\ IsBytes(bs) /\ d.ok /\ CffEq(d.v, V)
+                        /\ d.topLen = TopDictLen(V) /\ d.topOffSize = MinOffSize(TopDictLen(V) + 1)
+                        /\ CffFacts(d.v) = CffFacts(V)
+                        /\ DictOk(V.top) /\ DictOk(V.priv) /\ \A i \in 1 .. Len(V.fds) : DictOk(V.fds[i].fd) /\ DictOk(V.fds[i].priv)
 
 \* a glyph in a foreign packing: in format, packed as its flags say, of the size the fields add up to, and
 \* the writer's own packing of it decodes to the normalised value
